@@ -6,8 +6,8 @@ CONSTANTS
  MaxBefore = 1
  MaxAfter = 1
  Thin = TRUE
- Stateful = FALSE
- Emit = TRUE
+ Stateful = TRUE
+ Emit = FALSE
 SPECIFICATION Spec
 INVARIANT OnlyDocumented
 INVARIANT GitWins
